@@ -196,6 +196,11 @@ def run(ctx, rep):
         rep.fail('R11.7', 'engine', 'slot analysis crashed: %r' % (e,), status='undecided')
     check_iterator(prog, rep)
     try:
+        check_iterator_construction(prog, rep)
+    except Exception as e:
+        import traceback; traceback.print_exc()
+        rep.fail('R11.6', 'construction-engine', 'iterator construction analysis crashed: %r' % (e,), status='undecided')
+    try:
         check_front_end(prog, rep)
     except Exception as e:
         import traceback; traceback.print_exc()
@@ -989,3 +994,43 @@ def check_subbyte_layout(prog, rep, impls):
                     rep.ok("R11.8", key, at=f.span, fn=f.path, detail={"pixels": 2 * ppb})
         decided[raw] = all_ok
     return decided
+
+
+def check_iterator_construction(prog, rep):
+    """R11.6 (construction) iteration starts at pixel 0 of the very bytes the slice was given: RawDataSlice::new stores its
+    argument, and RawDataSlice::into_iter (constructors inlined) builds the iterator with data = self.data and index = 0
+    on its only path — a `split_at` that keeps the wrong half, a sub-slice or a non-zero start index shifts every item."""
+    from mirq.origin import mk_field
+    SL = "embedded_graphics::iterator::raw::RawDataSlice"
+    adt_it = prog.adts[ITER]
+    fi = {f["name"]: i for i, f in enumerate(adt_it["variants"][0]["fields"])}
+    fs = {f["name"]: i for i, f in enumerate(prog.adts[SL]["variants"][0]["fields"])}
+    P_ = Paths(prog, inline=lambda g: True, depth=6)
+    ii = [f for f in prog.fns.values() if f.body and f.name == "into_iter" and f.impl and isinstance(prog.impls[f.impl]["self_ty"], dict) and prog.impls[f.impl]["self_ty"].get("adt") == SL]
+    nw = [f for f in prog.fns.values() if f.body and f.name == "new" and f.impl and isinstance(prog.impls[f.impl]["self_ty"], dict) and prog.impls[f.impl]["self_ty"].get("adt") == SL and not prog.impls[f.impl].get("trait")]
+    if len(ii) != 1 or len(nw) != 1:
+        rep.fail("R11.6", "construction", "anchor lost: RawDataSlice::into_iter / new (%d / %d)" % (len(ii), len(nw)), status="undecided")
+        return
+    for f, key, want in ((nw[0], "RawDataSlice::new", None), (ii[0], "RawDataSlice::into_iter", None)):
+        try:
+            summs = P_.of(f)
+        except Unsupported as e:
+            rep.fail("R11.6", "construction:" + key, "cannot summarise: %s" % e, status="undecided", at=f.span, fn=f.path)
+            continue
+        bad = []
+        if len(summs) != 1 or summs[0].facts or summs[0].effects:
+            bad.append("expected one unconditional path, found %d" % len(summs))
+        for sm in summs:
+            r = strip_refs(sm.ret)
+            if key.endswith("::new"):
+                d = strip_refs(mk_field(r, fs["data"]))
+                if not (d[0] == "param" and d[1] == 1):
+                    bad.append("the slice stores %s instead of its argument" % show(d, maxd=4))
+            else:
+                d = strip_refs(mk_field(r, fi["data"]))
+                ix = strip_refs(mk_field(r, fi["index"]))
+                if d != ("field", ("param", 1, "self"), fs["data"]):
+                    bad.append("the iterator walks %s instead of self.data" % show(d, maxd=4))
+                if ix != ("const", 0):
+                    bad.append("the iterator starts at index %s" % show(ix, maxd=3))
+        rep.check(not bad, "R11.6", "construction:" + key, "%s: %s" % (key, "; ".join(sorted(set(bad))[:2])), at=f.span, fn=f.path)
